@@ -674,3 +674,186 @@ pub fn generate(repo: &Repo) -> Result<Vec<GenFile>, String> {
         content: render(&c),
     }])
 }
+
+
+// ---------------------------------------------------------------------------------------------
+// auto-trait probes per TYPE PARAMETER (used by `probedrive --only c05`)
+// ---------------------------------------------------------------------------------------------
+
+/// One client-side question for rustc: does `ty: tr` hold?
+pub struct ParamProbe {
+    /// definition path of the type (`vecs::thin::ThinVec`)
+    pub def: String,
+    /// the parameter instantiated with a non-`Send` / non-`Sync` witness (None = the positive twin)
+    pub param: Option<String>,
+    /// `send` | `sync`
+    pub tr: &'static str,
+    /// the fully spelled type
+    pub ty: String,
+    /// rustc must reject (a bad parameter) / must accept (positive twin of an `unsafe impl` row)
+    pub must_reject: bool,
+    /// `structural` (every public type with type parameters) or `unsafe impl @ file:line`
+    pub origin: String,
+    pub loc: String,
+}
+
+pub struct ParamProbes {
+    pub probes: Vec<ParamProbe>,
+    /// (what, why): types / parameters for which no client program can be written
+    pub unspellable: Vec<(String, String)>,
+}
+
+const NOT_SEND: &str = "::std::rc::Rc<()>";
+const NOT_SYNC: &str = "::core::cell::Cell<u8>";
+
+/// For every PUBLIC struct/enum/union with type parameters, and for every `unsafe impl Send/Sync`
+/// row: per type parameter that occurs in a field type, the type instantiated with a
+/// non-`Send` (resp. non-`Sync`) witness for that parameter and well-behaved types for the
+/// others. `phantom` = reviewed (definition path, parameter index) pairs to skip.
+pub fn param_probes(cm: &CrateModel, phantom: &[(String, usize)]) -> Result<ParamProbes, String> {
+    let (adts, _) = autotraits::collect(cm)?;
+    let surface = collect(cm)?;
+    let mut out = ParamProbes { probes: vec![], unspellable: vec![] };
+    for (d, def) in cm.defs.iter().enumerate() {
+        if !cm.is_adt(d) {
+            continue;
+        }
+        let path = cm.def_path(d);
+        let Some(g) = cm.generics_of(d) else { continue };
+        let (tys, n_lt, _) = generic_names(g);
+        if tys.is_empty() {
+            continue;
+        }
+        let unsafe_rows: Vec<&UnsafeImplRow> = surface.unsafe_impls.iter().filter(|u| u.ty == path).collect();
+        let Some(pp) = &def.public_path else {
+            for u in &unsafe_rows {
+                out.unspellable.push((
+                    format!("unsafe impl {} for {path} @ {}", u.tr, u.loc),
+                    "the type has no public path: a client cannot name it".into(),
+                ));
+            }
+            continue;
+        };
+        let Some(adt) = adts.iter().find(|a| a.name == path) else { continue };
+        let mut in_fields = vec![];
+        for f in &adt.fields {
+            ty_params(f, &mut in_fields);
+        }
+        // witnesses per parameter, from the bounds on the DEFINITION
+        let mut bounds: BTreeMap<String, Vec<String>> = BTreeMap::new();
+        for p in &g.params {
+            if let syn::GenericParam::Type(t) = p {
+                let e = bounds.entry(t.ident.to_string()).or_default();
+                for b in &t.bounds {
+                    if let syn::TypeParamBound::Trait(tb) = b {
+                        e.push(trait_key(&tb.path));
+                    }
+                }
+            }
+        }
+        if let Some(wc) = &g.where_clause {
+            for pred in &wc.predicates {
+                if let syn::WherePredicate::Type(pt) = pred {
+                    if let syn::Type::Path(p) = &pt.bounded_ty {
+                        if let Some(id) = p.path.get_ident() {
+                            let e = bounds.entry(id.to_string()).or_default();
+                            for b in &pt.bounds {
+                                if let syn::TypeParamBound::Trait(tb) = b {
+                                    e.push(trait_key(&tb.path));
+                                }
+                            }
+                        }
+                    }
+                }
+            }
+        }
+        // (good, bad for Send, bad for Sync); None = no witness of that kind exists
+        let witness = |name: &str| -> Result<(String, Option<String>, Option<String>), String> {
+            let bs = bounds.get(name).cloned().unwrap_or_default();
+            if bs.iter().any(|b| b == "Backend") {
+                // every backend is `Send`; `Rc` is the one that is not `Sync`
+                Ok(("::hipstr::Arc".into(), None, Some("::hipstr::Rc".into())))
+            } else if bs.iter().any(|b| b == "MutVector" || b == "Vector") {
+                Ok((
+                    "::alloc::vec::Vec<u8>".into(),
+                    Some(format!("::alloc::vec::Vec<{NOT_SEND}>")),
+                    Some(format!("::alloc::vec::Vec<{NOT_SYNC}>")),
+                ))
+            } else if bs.iter().all(|b| matches!(b.as_str(), "Clone" | "Default" | "Sized")) {
+                Ok(("u8".into(), Some(NOT_SEND.into()), Some(NOT_SYNC.into())))
+            } else {
+                Err(format!("no witness for a parameter bounded by {bs:?}"))
+            }
+        };
+        let spell = |subst: &dyn Fn(&str) -> String| -> Result<String, String> {
+            let mut args: Vec<String> = vec!["'static".to_string(); n_lt];
+            for p in &g.params {
+                match p {
+                    syn::GenericParam::Type(t) => args.push(subst(&t.ident.to_string())),
+                    syn::GenericParam::Const(c) => args.push(match norm(&c.ty).as_str() {
+                        "usize" => "7".into(),
+                        "u8" => "1".into(),
+                        other => return Err(format!("no default for a const parameter of type {other}")),
+                    }),
+                    syn::GenericParam::Lifetime(_) => {}
+                }
+            }
+            Ok(format!("::hipstr::{}<{}>", pp.join("::"), args.join(", ")))
+        };
+        let goods: Result<BTreeMap<String, (String, Option<String>, Option<String>)>, String> =
+            tys.iter().map(|t| witness(t).map(|w| (t.clone(), w))).collect();
+        let goods = match goods {
+            Ok(g) => g,
+            Err(e) => {
+                out.unspellable.push((path.clone(), e));
+                continue;
+            }
+        };
+        let here = loc(cm.modules[def.module].file, match &def.kind {
+            DefKind::Struct(s) => s.ident.span(),
+            DefKind::Enum(s) => s.ident.span(),
+            DefKind::Union(s) => s.ident.span(),
+            _ => proc_macro2::Span::call_site(),
+        });
+        let all_good = |n: &str| goods[n].0.clone();
+        for (i, t) in tys.iter().enumerate() {
+            if !in_fields.contains(&i) || phantom.iter().any(|(p, k)| *p == path && *k == i) {
+                continue;
+            }
+            for (tr, bad) in [("send", goods[t].1.clone()), ("sync", goods[t].2.clone())] {
+                match bad {
+                    Some(bad) => {
+                        let ty = spell(&|n: &str| if n == t { bad.clone() } else { all_good(n) })?;
+                        out.probes.push(ParamProbe {
+                            def: path.clone(),
+                            param: Some(t.clone()),
+                            tr,
+                            ty,
+                            must_reject: true,
+                            origin: "structural".into(),
+                            loc: here.clone(),
+                        });
+                    }
+                    None => out.unspellable.push((
+                        format!("{path}: parameter {t}, {tr}"),
+                        "no backend is !Send: the Send side of a `B: Backend` parameter is the C05 table's Rc rows".into(),
+                    )),
+                }
+            }
+        }
+        // positive twins of the unsafe impls: with well-behaved parameters the trait must hold
+        for u in &unsafe_rows {
+            let tr = if u.tr == "Send" { "send" } else if u.tr == "Sync" { "sync" } else { continue };
+            out.probes.push(ParamProbe {
+                def: path.clone(),
+                param: None,
+                tr,
+                ty: spell(&|n: &str| all_good(n))?,
+                must_reject: false,
+                origin: format!("unsafe impl @ {}", u.loc),
+                loc: u.loc.clone(),
+            });
+        }
+    }
+    Ok(out)
+}
